@@ -3424,6 +3424,20 @@ func _case(n *node) {
 						return fnext
 					}
 					elem := v.Elem()
+					if elem.IsValid() && !isInterfaceSrc(typ) {
+						// A value with methods is held with its interpreted type.
+						if vi, ok := elem.Interface().(valueInterface); ok && vi.node != nil {
+							if vi.node.typ.id() == typ.id() {
+								destValue(f).Set(vi.value)
+								return tnext
+							}
+							return fnext
+						}
+						if hasMethodSrc(typ) {
+							// A bare value is not of a type with methods (it would be held with its type).
+							return fnext
+						}
+					}
 					if isInterfaceSrc(typ) && !isEmptyInterface(typ) {
 						// An interpreted interface type: the dynamic type must have its methods.
 						if elem.IsValid() && implementsInterface(v, typ) {
@@ -3483,6 +3497,20 @@ func _case(n *node) {
 							continue
 						}
 						elem := val.Elem()
+						if elem.IsValid() && !isInterfaceSrc(typ) {
+							// A value with methods is held with its interpreted type.
+							if vi, ok := elem.Interface().(valueInterface); ok && vi.node != nil {
+								if vi.node.typ.id() == typ.id() {
+									destValue(f).Set(elem)
+									return tnext
+								}
+								continue
+							}
+							if hasMethodSrc(typ) {
+								// A bare value is not of a type with methods (it would be held with its type).
+								continue
+							}
+						}
 						if isInterfaceSrc(typ) && !isEmptyInterface(typ) {
 							// An interpreted interface type: the dynamic type must have its methods.
 							if elem.IsValid() && implementsInterface(val, typ) {
